@@ -162,3 +162,9 @@ Definition needed_lookups (ctx srck dstk : N) : list (list seg_class) :=
     end in
   if ctx =? 0 then filter (fun p => negb (existsb (fun c => match c with CoreS => true | _ => false end) p)) all
   else all.
+
+(** * Hop field lifetime (SCION data plane, "ExpTime"): the unit is 24 h / 256 = 337.5 s; a hop
+    field of a segment with timestamp [ts] is valid from second [ts] up to and including second
+    [ts + floor ((ExpTime + 1) * 337.5)].  Literal; nothing here comes from the source tree. *)
+Definition spec_expiry (ts exp : N) : N := ts + ((exp + 1) * 675) / 2.
+Definition spec_time_ok (now ts exp : N) : bool := (ts <=? now) && (now <=? spec_expiry ts exp).
